@@ -160,6 +160,10 @@ pub fn run_job(job: &Value, slot: u32, serial: u32, progress: &Progress) -> JobO
     let seed = job["seed"].as_u64().unwrap_or(0);
     let perturb_us = job["perturb_us"].as_u64().unwrap_or(0);
     let turns = Turns::new();
+    turns
+        .timeout_ms
+        .store(job["gate_timeout_ms"].as_u64().unwrap_or(2000), Ordering::Relaxed);
+    let turns_stat = turns.clone();
     let gate = make_gate(job, &turns);
     let perturb = if perturb_us > 0 {
         Some(Perturb {
@@ -315,7 +319,8 @@ pub fn run_job(job: &Value, slot: u32, serial: u32, progress: &Progress) -> JobO
     let events = session.finish();
     let panics = std::mem::take(&mut *PANIC_LOG.lock());
     let result = json!({"id": id, "hosts": hosts, "nhosts": nhosts, "wall_s": wall, "events": total,
-        "panics": panics, "lingering": lingering, "unwind_s": unwind_s});
+        "panics": panics, "lingering": lingering, "unwind_s": unwind_s,
+        "gate_timeouts": turns_stat.timeouts.load(Ordering::Relaxed)});
     JobOutcome { result, events }
 }
 
